@@ -79,12 +79,19 @@ def build(s, labels=None, var=None):
     AMB = {1: 283.0, 2: 303.0}
 
     def thermal_kw(N, th):
-        """heat-transfer coefficient giving the designed decay factor: exp(-alpha pi D L / (cp |m|)) = f (documented law)"""
+        """heat-transfer coefficient giving the designed decay factor: exp(-alpha pi D_outer L / (cp |m|)) = f (documented law).
+        variant thickwall: every second pipe created gets an outer diameter of 1.5 D (heat is lost over the outer surface, alpha is
+        scaled down accordingly), the others none at all (then the inner diameter counts) - the same physical system"""
         if not th:
             return {}
         f = FAC[th["fd"]]
         alpha = 0.0 if f == 1.0 else -math.log(f) * 4000.0 * abs(th["m"]) / (math.pi * DSTAR * N * DSTAR)
-        return {"u_w_per_m2k": alpha, "text_k": AMB[th["te"]]}
+        kw = {"u_w_per_m2k": alpha, "text_k": AMB[th["te"]]}
+        if var.get("thickwall"):
+            aux["pipes"] = aux.get("pipes", 0) + 1
+            if aux["pipes"] % 2 == 1:
+                kw.update(outer_diameter_mm=1.5 * DSTAR * 1000.0, u_w_per_m2k=alpha / 1.5)
+        return kw
 
     fm = s.get("fm", "nikuradse")
 
